@@ -171,15 +171,22 @@ def sym_str(s, name, width, assume):
     return VStr(Seq(n, ch))
 
 
-def sym_nd(s, name, shape, kind):
+def sym_nd(s, name, shape, kind, assume=None):
+    """array at its on-disk width; with ``assume`` given: no NaN (NaN is only allowed as a wholly-missing frame of a track)"""
     f = s.fun(name, len(shape))
     nd = VNd(tuple(shape), VDType(kind), lambda *i: f(*i), label=f"{s.path}.{name}")
+    if assume is not None and kind in ("f4", "f8"):
+        idx = [z3.Const(f"nn{d}!{s.path}.{name}", I) for d in range(len(shape))]
+        assume.append(z3.ForAll(idx, z3.Not(isnan(f(*idx)))))
     return nd
 
 
-def sym_float(s, name, kind="f4"):
-    """a float already at its on-disk width (valid_T)"""
-    return VFloat(s.int(name), kind)
+def sym_float(s, name, kind="f4", assume=None):
+    """a float already at its on-disk width (valid_T), not NaN"""
+    w = s.int(name)
+    if assume is not None:
+        assume.append(z3.Not(isnan(w)))
+    return VFloat(w, kind)
 
 
 def sym_int(s, name, kind, assume):
@@ -357,10 +364,10 @@ def items_view(lst):
     return SeqView(0, lst.n, lst.at)
 
 
-def _geometry(o, s):
-    o.fields["volume"] = sym_nd(s, "volume", (3,), "f4")
-    o.fields["rotationMatrix"] = sym_nd(s, "rotationMatrix", (3, 3), "f4")
-    o.fields["translationVector"] = sym_nd(s, "translationVector", (3,), "f4")
+def _geometry(o, s, assume=None):
+    o.fields["volume"] = sym_nd(s, "volume", (3,), "f4", assume)
+    o.fields["rotationMatrix"] = sym_nd(s, "rotationMatrix", (3, 3), "f4", assume)
+    o.fields["translationVector"] = sym_nd(s, "translationVector", (3,), "f4", assume)
 
 
 def _block_dates(interp, o, s):
@@ -382,9 +389,9 @@ class _Data3D(Spec):
         assume.append(N >= 1)
         o.fields["nFrames"] = N
         o.fields["frequency"] = sym_int(s, "frequency", "i4", assume)
-        o.fields["startTime"] = sym_float(s, "startTime")
+        o.fields["startTime"] = sym_float(s, "startTime", assume=assume)
         o.fields["flag"] = sym_enum(interp, s, "flag", mod.ns["Flags"], assume)
-        _geometry(o, s)
+        _geometry(o, s, assume)
         _block_dates(interp, o, s)
         nT = s.int("nTracks")
         assume.append(And(nT >= 0, nT < 2**31))
@@ -425,7 +432,7 @@ class _EMG(Spec):
         assume.append(And(N >= 1, in_range("i4", N - 49), in_range("i4", N)))
         o.fields["nSamples"] = N
         o.fields["frequency"] = sym_int(s, "frequency", "i4", assume)
-        o.fields["startTime"] = sym_float(s, "startTime")
+        o.fields["startTime"] = sym_float(s, "startTime", assume=assume)
         _block_dates(interp, o, s)
         n = s.int("nSignals")
         assume.append(And(n >= 0, n < 2**31))
@@ -457,8 +464,8 @@ class _FT3D(Spec):
         assume.append(N >= 1)
         o.fields["nFrames"] = N
         o.fields["frequency"] = sym_int(s, "frequency", "i4", assume)
-        o.fields["startTime"] = sym_float(s, "startTime")
-        _geometry(o, s)
+        o.fields["startTime"] = sym_float(s, "startTime", assume=assume)
+        _geometry(o, s, assume)
         _block_dates(interp, o, s)
         nT = s.int("nTracks")
         assume.append(And(nT >= 0, nT < 2**31))
@@ -485,7 +492,7 @@ class _PlatsData(Spec):
         assume.append(N >= 1)
         o.fields["n_frames"] = N
         o.fields["frequency"] = sym_int(s, "frequency", "i4", assume)
-        o.fields["start_time"] = sym_float(s, "start_time")
+        o.fields["start_time"] = sym_float(s, "start_time", assume=assume)
         _block_dates(interp, o, s)
         n = s.int("nPlatforms")
         assume.append(And(n >= 0, n < 2**31))
@@ -512,8 +519,8 @@ class _PlatInfo(Spec):
         s = Sym(path, idx)
         o = self.new(interp, (path,) + tuple(idx))
         o.fields["label"] = sym_str(s, "label", 256, assume)
-        o.fields["size"] = sym_nd(s, "size", (2,), "f4")
-        o.fields["position"] = sym_nd(s, "position", (4, 3), "f4")
+        o.fields["size"] = sym_nd(s, "size", (2,), "f4", assume)
+        o.fields["position"] = sym_nd(s, "position", (4, 3), "f4", assume)
         return o
 
     def view(self, o):
@@ -582,7 +589,7 @@ class _Seelab(Spec):
         s = Sym(path, idx)
         o = self.new(interp, (path,) + tuple(idx))
         for nm, shp in self.arrs:
-            o.fields[nm] = sym_nd(s, nm, shp, "f8")
+            o.fields[nm] = sym_nd(s, nm, shp, "f8", assume)
         o.fields["view_port"] = _sub_obj(interp, s, "view_port", "Viewport", assume)
         return o
 
@@ -597,16 +604,20 @@ class _Seelab(Spec):
 @spec("BTSCamera", "basictdf.tdfCalibrationData.BTSCameraData")
 class _BTSCam(Spec):
     arrs = [("rotation_matrix", (3, 3)), ("translation_vector", (3,)), ("focus", (2,)), ("optical_center", (2,))]
+    variants = ["short", "full"]      # short: any number <= 70 of coefficients per axis (C02); full: exactly 70 (what a decoder returns)
 
-    def make(self, interp, path, idx, assume, variant=None):
+    def make(self, interp, path, idx, assume, variant="full"):
         s = Sym(path, idx)
         o = self.new(interp, (path,) + tuple(idx))
         for nm, shp in self.arrs:
-            o.fields[nm] = sym_nd(s, nm, shp, "f8")
+            o.fields[nm] = sym_nd(s, nm, shp, "f8", assume)
         for nm, cnt in (("x_distortion_coefficients", "nx"), ("y_distortion_coefficients", "ny")):
-            n = s.int(cnt)
-            assume.append(And(n >= 0, n <= 70))
-            o.fields[nm] = sym_nd(s, nm, (n,), "f8")
+            if variant == "full":
+                n = 70
+            else:
+                n = s.int(cnt)
+                assume.append(And(n >= 0, n <= 70))
+            o.fields[nm] = sym_nd(s, nm, (n,), "f8", assume)
         o.fields["view_port"] = _sub_obj(interp, s, "view_port", "Viewport", assume)
         return o
 
@@ -629,9 +640,9 @@ class _Calibration(Spec):
         mod = interp.loader.import_module(interp, "basictdf.tdfCalibrationData")
         o.fields["format"] = mod.ns["CalibrationDataBlockFormat"].members[variant]
         o.fields["distorsion_model"] = sym_enum(interp, s, "distorsion_model", mod.ns["DistorsionModel"], assume)
-        o.fields["calibration_volume_size"] = sym_nd(s, "calibration_volume_size", (3,), "f4")
-        o.fields["calibration_volume_rotation_matrix"] = sym_nd(s, "calibration_volume_rotation_matrix", (3, 3), "f4")
-        o.fields["calibration_volume_translation_vector"] = sym_nd(s, "calibration_volume_translation_vector", (3,), "f4")
+        o.fields["calibration_volume_size"] = sym_nd(s, "calibration_volume_size", (3,), "f4", assume)
+        o.fields["calibration_volume_rotation_matrix"] = sym_nd(s, "calibration_volume_rotation_matrix", (3, 3), "f4", assume)
+        o.fields["calibration_volume_translation_vector"] = sym_nd(s, "calibration_volume_translation_vector", (3,), "f4", assume)
         _block_dates(interp, o, s)
         n = s.int("nCams")
         assume.append(And(n >= 0, n < 2**31))
@@ -704,7 +715,7 @@ class _Event(Spec):
         o.fields["type"] = sym_enum(interp, s, "type", mod.ns["EventsDataType"], assume)
         n = s.int("nValues")
         assume.append(And(n >= 0, n < 2**31, Implies(o.fields["type"].val == 0, n <= 1)))
-        o.fields["values"] = sym_nd(s, "values", (n,), "f4")
+        o.fields["values"] = sym_nd(s, "values", (n,), "f4", assume)
         return o
 
     def view(self, o):
@@ -722,7 +733,7 @@ class _Events(Spec):
         o = self.new(interp, (path,) + tuple(idx))
         mod = interp.loader.import_module(interp, "basictdf.tdfEvents")
         o.fields["format"] = mod.ns["TemporalEventsDataFormat"].members["standard"]
-        o.fields["start_time"] = sym_float(s, "start_time")
+        o.fields["start_time"] = sym_float(s, "start_time", assume=assume)
         _block_dates(interp, o, s)
         n = s.int("nEvents")
         assume.append(And(n >= 0, n < 2**31))
